@@ -22,9 +22,9 @@ RULE = ("random documents (regimes N/U/A, 1-40 nodes), the hostile fixed documen
         "non-trivial when the path parses and evaluation either returns >=1 node or raises; distinct by (doc, path)")
 ASSUMPTIONS = ["paths that do not parse are outside the statement (C14 covers them)",
                "recursion beyond depth 40 and cyclic alias graphs are out of scope"]
-REACH = [("yamlpath/processor.py", 811, 2349, "Processor segment handlers"),
-         ("yamlpath/common/keywordsearches.py", 26, 1177, "KeywordSearches"),
-         ("yamlpath/common/searches.py", 23, 117, "Searches.search_matches")]
+REACH = [("yamlpath/processor.py", "_get_nodes_by_path_segment,_get_nodes_by_key,_get_nodes_by_index,_get_nodes_by_anchor,_get_nodes_by_search,_get_nodes_by_traversal,_get_nodes_by_match_all_filtered,_get_nodes_by_match_all_unfiltered,_get_nodes_by_collector,_get_required_nodes", "Processor segment handlers"),
+         ("yamlpath/common/keywordsearches.py", "search_matches,has_child,max,min,parent,distinct,unique,name", "KeywordSearches"),
+         ("yamlpath/common/searches.py", "search_matches", "Searches.search_matches")]
 SIZES = {"quick": 600000, "thorough": 6000000}
 REQUIRED_COUNTERS = ["returned", "yamlpath_error"]
 
